@@ -338,6 +338,16 @@ def r_unit_elimination(prog: Program, col: Collector, refs: Refs, cat: Catalogue
         col.check(guard_ok and same_op and not redefs, construct, f"terms equal to UNITS[{key}] are dropped from a contraction whose bin_op is {key}",
                   f"terms equal to the unit of `{key}` are dropped but the contraction is rebuilt with bin_op `{norm(rebuilt[0].args[1]) if rebuilt else '?'}`"
                   f"{'' if guard_ok else ' (and without testing that the op has a unit)'}: x op unit(other op) is not x", f.loc(subs[0]))
+        # every term that is REMOVED is a unit: the filter that builds the remaining terms keeps a term unless it compares equal to UNITS[key]
+        for i in ifs[:1]:
+            for comp in [n for n in ast.walk(i) if isinstance(n, (ast.GeneratorExp, ast.ListComp)) and n.generators[0].ifs]:
+                g = comp.generators[0]
+                if not (isinstance(comp.elt, ast.Name) and isinstance(g.target, ast.Name) and comp.elt.id == g.target.id):
+                    continue
+                tests_unit = any(any(s_ in list(ast.walk(c)) for s_ in subs) for c in g.ifs)
+                col.check(tests_unit, construct + "::removed terms are units", "a term is dropped only if it equals the unit",
+                          f"the filter `{' and '.join(norm(c) for c in g.ifs)[:80]}` that drops terms does not compare them with UNITS[{key}]: once some unit is present, "
+                          "terms that are not the unit (any constant) are dropped from the product as well", f.loc(comp))
         keeps_one = any(isinstance(n, ast.If) and isinstance(n.test, ast.UnaryOp) and isinstance(n.test.op, ast.Not) for i in ifs[:1] for n in ast.walk(i) if n is not i)
         col.check(keeps_one, construct + "::keeps a term", "when every term is a unit one is kept", "when all terms are units the contraction is rebuilt with no terms", f.loc(subs[0]))
         # the comparison is on Number data only (units are scalars)
@@ -1833,3 +1843,48 @@ def r_nested_fusion_same_red_op(prog: Program, col: Collector, refs: Refs, cat: 
                       f"the reduced variables of the inner contraction `{inner}` are merged into the outer reduction without comparing `{inner}.red_op` with `{R}`: when the outer "
                       f"reduction is another op (a max or add around a logaddexp mixture) the inner variables end up reduced with the wrong op", f.loc(c))
     col.cur.analysed["nested_fusion_sites"] = n
+
+
+# ---------------------------------------------------------------------- the result of a Contraction rule still reduces
+def r_contraction_result_reduces(prog: Program, col: Collector, refs: Refs, cat: Catalogue, rule: str):
+    """A rule registered for Contraction(red_op, bin_op, reduced_vars, terms...) must return something that still reduces over
+    `reduced_vars` with `red_op`: a Contraction / interpret call or a `.reduce` that receives (a value derived from) `reduced_vars`.
+    Returning an operand, or the plain `bin_op` of the operands, is only right where the rule has established that nothing is
+    reduced (a test or assertion on `red_op` / `reduced_vars`)."""
+    from ..dataflow import param_deps
+    from ..cfg import CFG
+    col.rule(rule, "what a Contraction rule returns still carries the reduction (or the rule has tested that there is none)", floor=15)
+    seen = set()
+    n = 0
+    for r in cat.registrations:
+        f = r.target
+        if f is None or not r.pattern or isinstance(f.node, ast.Lambda) or f.fq in seen or len(f.positional) < 3:
+            continue
+        if refs.resolve(r.pattern[0]) != "funsor.cnf.Contraction":
+            continue
+        if not (r.registry.startswith("funsor.interpretations.") or r.registry.startswith("funsor.optimizer.")):
+            continue
+        # a registration that pins red_op to NullOp has nothing to reduce
+        ro = r.pattern[1] if len(r.pattern) > 1 else None
+        if ro is not None and norm(ro).endswith("NullOp"):
+            continue
+        seen.add(f.fq)
+        R, V = f.positional[0], f.positional[2]
+        cfg = None
+        for ret in [x for x in walk_no_nested(f.node) if isinstance(x, ast.Return) and x.value is not None]:
+            if isinstance(ret.value, ast.Constant) and ret.value.value is None:
+                continue
+            n += 1
+            cfg = cfg or CFG(f.node)
+            deps = param_deps(f, ret.value, ret, cfg=cfg)
+            construct = f"{f.fq}::{norm(ret)[:70]}"
+            if V in deps:
+                col.ok(construct, f"the result depends on `{V}`", f.loc(ret), nontrivial=False)
+                continue
+            guard_nodes = [a for a in f.module.ancestors(ret) if isinstance(a, ast.If) and f.module.enclosing_function(a) is f.node]
+            guard_nodes += [a for a in walk_no_nested(f.node) if isinstance(a, ast.Assert) and a.lineno < ret.lineno]
+            established = any({R, V} & param_deps(f, g.test, g, cfg=cfg) for g in guard_nodes)
+            col.check(established, construct, f"returned under a test on `{R}` / `{V}` (nothing is reduced there)",
+                      f"`{norm(ret.value)[:60]}` does not depend on `{V}` and is not guarded by any test on `{R}` or `{V}`: the reduction over `{V}` is dropped, so the reduced "
+                      "variables stay free in the rewritten term", f.loc(ret))
+    col.cur.analysed["contraction_rule_returns"] = n
